@@ -247,6 +247,13 @@ func checkC11(c *Ctx, r *Report) {
 				collect = func(e ast.Expr, depth int) {
 					ast.Inspect(e, func(n ast.Node) bool {
 						switch x := n.(type) {
+						case *ast.CallExpr:
+							// what is handed to a helper is the helper's business (and the same whether
+							// its answer is tested directly or through a local that caches it)
+							if name := calleeOfCall(info, x); name != "" && !strings.HasPrefix(name, "builtin.") && isGleeceCallee(name) {
+								collect(x.Fun, depth)
+								return false
+							}
 						case *ast.SelectorExpr:
 							if sel := info.Selections[x]; sel != nil && sel.Kind() == types.FieldVal {
 								if q := qualField(info, x); strings.HasPrefix(q, "definitions.") {
@@ -490,13 +497,21 @@ func (w *World) converterArms(fi *FuncInfo) []convArm {
 	if sw == nil {
 		return nil
 	}
-	collect := func(n ast.Node, arm *convArm) {
+	var collectIn func(info *types.Info, n ast.Node, arm *convArm, busy map[string]bool)
+	collect := func(n ast.Node, arm *convArm) { collectIn(info, n, arm, map[string]bool{}) }
+	collectIn = func(info *types.Info, n ast.Node, arm *convArm, busy map[string]bool) {
 		ast.Inspect(n, func(m ast.Node) bool {
 			switch x := m.(type) {
 			case *ast.CallExpr:
 				cn := calleeOfCall(info, x)
 				if k, ok := parseKind[cn]; ok {
 					arm.Parse = append(arm.Parse, k)
+				} else if w.isNewName(cn) {
+					// a new helper: what it parses and sets is what the arm does
+					if h := w.Funcs[cn]; h != nil && h.Decl.Body != nil && !busy[cn] {
+						busy[cn] = true
+						collectIn(h.Pkg.TypesInfo, h.Decl.Body, arm, busy)
+					}
 				} else if isGleeceCallee(cn) && !strings.Contains(cn, "logger") {
 					arm.Parse = append(arm.Parse, "call:"+cn)
 				}
@@ -915,30 +930,16 @@ func (w *World) loopSkipProfileLocal(fi *FuncInfo, ownPkg string) map[string]str
 	// a skip is a block that does nothing but `continue` (and log): a `continue` that ends a
 	// block with other effects is a dispatch (the element was handled another way), not a skip
 	pure := map[*ast.BranchStmt]bool{}
+	added := map[*ast.BranchStmt][]ast.Expr{}
 	w.inspectRegion(fi, func(n ast.Node) bool {
 		b, ok := n.(*ast.BlockStmt)
 		if !ok || len(b.List) == 0 {
 			return true
 		}
-		br, ok := b.List[len(b.List)-1].(*ast.BranchStmt)
-		if !ok || br.Tok != token.CONTINUE {
-			return true
-		}
-		onlyLog := true
-		for _, st := range b.List[:len(b.List)-1] {
-			es, ok := st.(*ast.ExprStmt)
-			if !ok {
-				onlyLog = false
-				break
-			}
-			cl, ok := es.X.(*ast.CallExpr)
-			if !ok || !(strings.HasPrefix(calleeOfCall(fi.Pkg.TypesInfo, cl), "infrastructure/logger.") || strings.HasPrefix(calleeOfCall(fi.Pkg.TypesInfo, cl), "log.")) {
-				onlyLog = false
-				break
-			}
-		}
-		if onlyLog {
-			pure[br] = true
+		// (a dummy enclosing condition: the walk below supplies the real ones)
+		if sk := contSkipOf(fi.Pkg.TypesInfo, b, &ast.Ident{Name: "_"}); sk != nil {
+			pure[sk.Br] = true
+			added[sk.Br] = sk.Added
 		}
 		return true
 	})
@@ -965,9 +966,9 @@ func (w *World) loopSkipProfileLocal(fi *FuncInfo, ownPkg string) map[string]str
 			}
 			return
 		case *ast.BranchStmt:
-			if x.Tok == token.CONTINUE && inLoop && len(conds) > 0 && pure[x] {
+			if x.Tok == token.CONTINUE && inLoop && len(conds)+len(added[x]) > 0 && pure[x] {
 				var parts []string
-				for _, cnd := range conds {
+				for _, cnd := range append(append([]ast.Expr{}, conds...), added[x]...) {
 					a := w.exprAtoms(fi, cnd)
 					var ks []string
 					for f := range a.Fields {
